@@ -220,7 +220,7 @@ pub fn check_c11(case: &Case, st: &mut Stats) -> Verdict {
         _ => None,
     });
     let variants: Vec<(&str, EnvPlan)> = vec![
-        ("chop1", EnvPlan { modes: vec![IoMode::Chop { max: 1 }], stream: plan.stream, faults: vec![], crash: None }),
+        ("chop1", EnvPlan { modes: vec![IoMode::Chop { max: 1 }], stream: plan.stream, faults: vec![], crash: None, buffered: !plan.buffered }),
         ("as-generated", plan.clone()),
         (
             "chop-intr",
@@ -229,6 +229,7 @@ pub fn check_c11(case: &Case, st: &mut Stats) -> Verdict {
                 stream: mix(plan.stream, 77),
                 faults: vec![],
                 crash: None,
+                buffered: plan.stream % 2 == 0,
             },
         ),
     ];
@@ -284,9 +285,10 @@ pub fn gen_c12(rng: &mut Rng, tier: Tier) -> Case {
     // benign schedules here only with large transfers: one-byte transfers multiply the number
     // of fault points per scenario by the file size without adding call sites
     let env = match rng.below(4) {
-        0 | 1 => EnvPlan::whole(),
-        2 => EnvPlan { modes: vec![IoMode::Chop { max: *rng.pick(&[64usize, 4096]) }, IoMode::Whole], stream: rng.next_u64(), faults: vec![], crash: None },
-        _ => EnvPlan { modes: vec![IoMode::ChopIntr { max: *rng.pick(&[64usize, 4096]), den: 16 }], stream: rng.next_u64(), faults: vec![], crash: None },
+        0 => EnvPlan::whole(),
+        1 => EnvPlan { buffered: true, ..EnvPlan::whole() },
+        2 => EnvPlan { modes: vec![IoMode::Chop { max: *rng.pick(&[64usize, 4096]) }, IoMode::Whole], stream: rng.next_u64(), faults: vec![], crash: None, buffered: rng.chance(1, 2) },
+        _ => EnvPlan { modes: vec![IoMode::ChopIntr { max: *rng.pick(&[64usize, 4096]), den: 16 }], stream: rng.next_u64(), faults: vec![], crash: None, buffered: rng.chance(1, 2) },
     };
     with_env(&c, env)
 }
@@ -557,13 +559,15 @@ pub fn check_c17(case: &Case, st: &mut Stats) -> Verdict {
     if let Some((o, m)) = bad {
         return viol("C17", &o, m);
     }
-    if crate::alloc::enabled() && !parallel && leaked > 0 {
-        // first-use lazy initialisations do not repeat: run again and compare
+    if crate::alloc::enabled() && !parallel {
+        // The leak verdict is taken on a second execution of the same case: first-use lazy
+        // initialisations (codec tables, thread-locals) do not repeat, a leaked buffer does. Always
+        // running twice keeps the run's event log independent of what the process did before.
         let (_b2, leaked2, _) = run_once(st, null_at);
         if leaked2 > 0 {
-            return viol("C17", "leak", format!("{} bytes stay allocated after every object of the run was dropped (again {} on a second run)", leaked, leaked2));
+            return viol("C17", "leak", format!("{} bytes stay allocated after every object of the run was dropped ({} on the first execution)", leaked2, leaked));
         }
-        st.c.inc("leak_check.first_use_lazy_init_ignored");
+        st.c.inc("leak_checks");
     }
     if crate::alloc::enabled() {
         st.c.inc("runs_under_VerifAlloc");
